@@ -53,9 +53,9 @@ func zzH_C09_udp() {
 	replies := 0
 	conn := &listener.DummyUDPConn{Buffer: zzBytes(n), Laddr: laddr, Raddr: &net.UDPAddr{IP: net.IPv4(10, 9, 9, 9), Port: 40000},
 		Fn: func(b []byte, addr *net.UDPAddr) (int, error) { replies++; return len(b), nil }}
-	zzUnwind(n+3, true)
+	zzUnwindIn("copyBuffer", n+3, true) // the copy loops of io.Copy
 	hc.handle(conn)
-	zzUnwind(0, false)
+	zzUnwindIn("", 0, false)
 	zzAssert(len(conn.Buffer) == 0, "the datagram has been consumed when the handler returns")
 	zzAssert(replies <= n+1, "the handler does not keep producing output after the datagram is consumed")
 }
